@@ -82,7 +82,7 @@ def cleanup_base():
 
 def build_tree(root: str, spec: list):
     """spec: list of entries, applied in order:
-    ("d", rel, mode) | ("f", rel, bytes, mode) | ("l", rel, target_text)
+    ("d", rel, mode) | ("f", rel, bytes, mode) | ("l", rel, target_text) | ("h", rel, existing_rel) hard link
     """
     with seam.passthrough():
         for e in spec:
@@ -98,6 +98,9 @@ def build_tree(root: str, spec: list):
             elif e[0] == "l":
                 os.makedirs(os.path.dirname(p), exist_ok=True)
                 os.symlink(e[2], p)
+            elif e[0] == "h":
+                os.makedirs(os.path.dirname(p), exist_ok=True)
+                os.link(os.path.join(root, e[2]), p)
             else:
                 raise ValueError(e)
 
